@@ -5,7 +5,7 @@ from diffcheck import Spec, run_spec
 from props import httpgen as G
 from props.c01 import split_out
 
-HARNESSES = [("h_parser", "asan", ())]
+HARNESSES = [("h_timeout", "plain", ()), ("h_parser", "asan", ())]
 
 
 class C14(Spec):
@@ -82,13 +82,74 @@ class C14(Spec):
         return "limit%+d" % (lim - n) if abs(lim - n) <= 2 else ("limit-far-" + ("over" if n > lim else "under"))
 
 
+def timeout_cases(rng, tier):
+    """Scripts whose stalls lie clearly on one side of the time-outs (the 500 ms scan phase is unknown); scripts the
+    model cannot decide for every phase are skipped by the comparison."""
+    cases = ["W 700 1500 d300,g", "W 700 1500 d1600,g", "W 700 1500 p,d300,P,h,e,B", "W 700 1500 p,d1600,P,h,e,B",
+             "W 700 1500 q,h,e,b,d300,b", "W 700 1500 q,h,e,b,d2300,b", "W 700 1500 q,h,e,d1000,B", "W 700 1500 q,d1400,h,e,B",
+             "W 700 1500 g,d200,g", "W 700 1500 g,d1700,g", "W 1500 700 q,h,e,d300,B", "W 1500 700 q,h,e,d1400,B", "W 1500 700 d300,q,d300,h,e,B"]
+    stalls_at = ["", "p", "q", "q,h", "q,h,e", "q,h,e,b"]          # after connect, inside the request line, headers, body
+    rest = {"": "q,h,e,B", "p": "P,h,e,B", "q": "h,e,B", "q,h": "e,B", "q,h,e": "B", "q,h,e,b": "b"}
+    n = 10 if tier == "quick" else 120
+    for _ in range(n):
+        hT, bT = rng.choice([(700, 1500), (600, 2000), (1500, 700), (1000, 1000), (800, 2300)])
+        at = rng.choice(stalls_at)
+        lim = min(hT, bT) if at in ("", "p", "q", "q,h") else bT
+        d = rng.choice([100, 200, lim - 400 if lim > 500 else 100, lim + 700, lim + 1000])
+        pre = (at + ",") if at else ""
+        first = "g,d100," if rng.random() < 0.3 else ""
+        cases.append("W %d %d %s%sd%d,%s" % (hT, bT, first, pre, max(100, d), rest[at]))
+    return cases
+
+
+def run_timeouts(rep, tier, seed):
+    rng = pv.rng_for(seed, "C14-timeouts")
+    exe = pv.build_harness("h_timeout", "plain")
+    drv = pv.build_model_driver()
+    cases = list(dict.fromkeys(timeout_cases(rng, tier)))
+    impl, _ = pv.run_parallel([exe], cases, shard=1, env={"PV_CASE_TIMEOUT": "60"})
+    model, _ = pv.run_parallel([drv, "timeout"], cases)
+    compared = 0
+    undecided = 0
+    for c, i, m in zip(cases, impl, model):
+        if "UNSUPPORTED-BY-MODEL" in m:
+            undecided += 1
+            continue
+        compared += 1
+        if i != m:
+            t = c.split()
+            rep.violation("header time-out %s ms, body time-out %s ms, client script %s: the server did %s, the time-out rule says %s"
+                          % (t[1], t[2], t[3], i, m),
+                          {"kind": "input", "case": c, "impl_output": i, "model_output": m,
+                           "how_to_run": "tools/check.py --property C14 --replay <this file>"})
+    return {"harness": "h_timeout", "model_area": "timeout", "cases": len(cases), "compared": compared,
+            "undecided_by_model_for_some_scan_phase": undecided,
+            "rule": "live Http::Endpoint with header/body time-outs (600-1500 / 700-2300 ms) and one raw client pacing a request: stalls after "
+                    "connect, inside the request line, inside the headers and inside the body, of lengths on either side of the "
+                    "applicable time-out, also on a keep-alive connection after a completed request; status codes received, whether "
+                    "the server closed the connection and how often the handler ran are compared with the model's time-out rule "
+                    "(HandlerModel.idle) evaluated at every phase of the 500 ms scan"}
+
+
+class C14WithTimeouts(C14):
+    def extra(self, rep, tier, seed):
+        return run_timeouts(rep, tier, seed)
+
+
 def run(rep, tier, seed):
-    return run_spec(C14(), rep, tier, seed)
+    return run_spec(C14WithTimeouts(), rep, tier, seed)
 
 
 def replay(obj):
     s = C14()
     case = obj["case"]
+    if case.startswith("W "):
+        exe = pv.build_harness("h_timeout", "plain")
+        drv = pv.build_model_driver()
+        i, _ = pv.run_parallel([exe], [case], env={"PV_CASE_TIMEOUT": "60"})
+        m, _ = pv.run_parallel([drv, "timeout"], [case])
+        print("case :", case); print("impl :", i[0]); print("model:", m[0])
+        return 0 if (i[0] == m[0] or "UNSUPPORTED" in m[0]) else 1
     exe = pv.build_harness(s.harness, s.variant)
     drv = pv.build_model_driver()
     i, _ = pv.run_parallel([exe], [case])
